@@ -179,6 +179,8 @@ Lemma getitem_same c1 c2 : csame c1 c2 -> forall k, getitem c1 k = getitem c2 k.
 Proof. intros (d1 & d2 & -> & -> & H) k. cbn. now rewrite H. Qed.
 Lemma contains_same c1 c2 : csame c1 c2 -> forall k, contains c1 k = contains c2 k.
 Proof. intros (d1 & d2 & -> & -> & H) k. cbn. unfold ahas. now rewrite H. Qed.
+Lemma getdef_same c1 c2 : csame c1 c2 -> forall k x, getdef c1 k x = getdef c2 k x.
+Proof. intros (d1 & d2 & -> & -> & H) k x. cbn. now rewrite H. Qed.
 Lemma setitem_same c1 c2 k v : csame c1 c2 -> rsame (setitem c1 k v) (setitem c2 k v).
 Proof.
   intros (d1 & d2 & -> & -> & H). cbn. exists (aset d1 k v), (aset d2 k v).
@@ -200,9 +202,10 @@ Proof. destruct r as [a|e]; cbn; intros H; [apply H|reflexivity]. Qed.
 
 Lemma ensure_same c1 c2 k : csame c1 c2 -> rsame (ensure c1 k) (ensure c2 k).
 Proof.
-  intros H. unfold ensure. rewrite (contains_same _ _ H). apply bind_eq. intros [|].
-  - now apply ok_same.
+  intros H. unfold ensure. rewrite (getdef_same _ _ H). apply bind_eq. intros v.
+  destruct (is_null v).
   - now apply setitem_same.
+  - now apply ok_same.
 Qed.
 
 Section V2.
@@ -271,17 +274,26 @@ Section V2.
   Qed.
 
   (** the first four lines: [ens] on the dictionary *)
-  Definition ens (d : dict) (k : string) : dict := if ahas d k then d else aset d k (CDict []).
+  Definition absent_or_null (d : dict) (k : string) : bool :=
+    match aget d k with Some v => is_null v | None => true end.
+  Definition ens (d : dict) (k : string) : dict :=
+    if absent_or_null d k then aset d k (CDict []) else d.
   Definition e4 (d : dict) : dict := ens (ens (ens (ens d "state") "grid") "ibm") "warm_start".
-  Definition sec_or_empty (d : dict) (k : string) : cv :=
-    match aget d k with Some v => v | None => CDict [] end.
+  (** the section as configure_v2 sees it: empty when omitted or null *)
+  Definition sec_val (o : option cv) : cv :=
+    match o with Some v => if is_null v then CDict [] else v | None => CDict [] end.
+  Definition sec_or_empty (d : dict) (k : string) : cv := sec_val (aget d k).
   Lemma ensure_dict d k : ensure (CDict d) k = Ok (CDict (ens d k)).
-  Proof. unfold ensure, ens. cbn. destruct (ahas d k); reflexivity. Qed.
+  Proof.
+    unfold ensure, ens, absent_or_null. cbn. destruct (aget d k) as [v|]; cbn [bind is_null]; [|reflexivity].
+    destruct (is_null v); reflexivity.
+  Qed.
   Lemma aget_ens d k k' :
     aget (ens d k) k' = if String.eqb k k' then Some (sec_or_empty d k) else aget d k'.
   Proof.
-    unfold ens, ahas, sec_or_empty. destruct (aget d k) as [v|] eqn:E.
-    - destruct (String.eqb_spec k k') as [<-|_]; [exact E|reflexivity].
+    unfold ens, sec_or_empty, sec_val, absent_or_null. destruct (aget d k) as [v|] eqn:F.
+    - destruct (is_null v); [now rewrite aget_aset|].
+      destruct (String.eqb_spec k k') as [<-|_]; [exact F|reflexivity].
     - now rewrite aget_aset.
   Qed.
   Lemma configure_v2_dict d : configure_v2 glob wst (CDict d) = cfg2_rest (CDict (e4 d)).
@@ -299,17 +311,42 @@ Section V2.
     destruct (String.eqb_spec "state" k) as [<-|_]; reflexivity.
   Qed.
 
-  (** T2: an omitted optional section behaves as an empty one, for every configuration tree
-      (also one that configure_v2 goes on to refuse) *)
+  (** T2: an optional section that is omitted, or present but null, behaves as an empty one — for
+      every configuration tree (also one that configure_v2 goes on to refuse) *)
+  Lemma e4_same d1 d2 :
+    (forall k, if optional_section k then sec_or_empty d1 k = sec_or_empty d2 k else aget d1 k = aget d2 k) ->
+    same_lookup (e4 d1) (e4 d2).
+  Proof.
+    intros H k. rewrite !aget_e4. specialize (H k). destruct (optional_section k); [now rewrite H|exact H].
+  Qed.
+  Lemma sec_or_empty_aset d k v k' :
+    sec_or_empty (aset d k v) k' = if String.eqb k k' then (if is_null v then CDict [] else v) else sec_or_empty d k'.
+  Proof.
+    unfold sec_or_empty. rewrite aget_aset. destruct (String.eqb k k'); reflexivity.
+  Qed.
   Lemma omitted_is_empty d k :
-    optional_section k = true -> aget d k = None ->
+    optional_section k = true -> absent_or_null d k = true ->
     rsame (configure_v2 glob wst (CDict d)) (configure_v2 glob wst (CDict (aset d k (CDict [])))).
   Proof.
     intros Hk Hn. rewrite !configure_v2_dict. apply cfg2_rest_same.
-    exists (e4 d), (e4 (aset d k (CDict []))). repeat split. intros k'.
-    rewrite !aget_e4. unfold sec_or_empty. rewrite !aget_aset.
-    destruct (String.eqb_spec k k') as [<-|_]; [|reflexivity].
-    now rewrite Hk, Hn.
+    exists (e4 d), (e4 (aset d k (CDict []))). repeat split. apply e4_same. intros k'.
+    rewrite sec_or_empty_aset, aget_aset. cbn [is_null].
+    destruct (String.eqb_spec k k') as [<-|_].
+    - rewrite Hk. unfold sec_or_empty, sec_val. unfold absent_or_null in Hn.
+      destruct (aget d k) as [v|]; [now rewrite Hn|reflexivity].
+    - destruct (optional_section k'); reflexivity.
+  Qed.
+  (** null and omitted are the same thing *)
+  Lemma null_is_omitted d k :
+    optional_section k = true -> aget d k = None ->
+    rsame (configure_v2 glob wst (CDict d)) (configure_v2 glob wst (CDict (aset d k CNull))).
+  Proof.
+    intros Hk Hn. rewrite !configure_v2_dict. apply cfg2_rest_same.
+    exists (e4 d), (e4 (aset d k CNull)). repeat split. apply e4_same. intros k'.
+    rewrite sec_or_empty_aset, aget_aset. cbn [is_null].
+    destruct (String.eqb_spec k k') as [<-|_].
+    - rewrite Hk. unfold sec_or_empty. now rewrite Hn.
+    - destruct (optional_section k'); reflexivity.
   Qed.
 End V2.
 
@@ -1187,7 +1224,21 @@ End GridDefaults.
 
 (** omitted = empty, seen by the modules *)
 Lemma omitted_same_modules glob wst d k :
-  optional_section k = true -> aget d k = None ->
+  optional_section k = true -> absent_or_null d k = true ->
   normalize_res (configure_v2 glob wst (CDict d)) =
   normalize_res (configure_v2 glob wst (CDict (aset d k (CDict [])))).
 Proof. intros Hk Hn. apply normalize_res_same. now apply omitted_is_empty. Qed.
+
+Lemma key_order_irrelevant glob wst (d1 d2 : dict) :
+  (forall k, aget d1 k = aget d2 k) ->
+  rsame (configure_v2 glob wst (CDict d1)) (configure_v2 glob wst (CDict d2)).
+Proof. intros H. apply configure_v2_same. exists d1, d2. repeat split. exact H. Qed.
+
+Lemma first_file_cases (glob : string -> list string) (p : string) :
+  (has_wild p = false -> first_file_v2 glob p = p) /\
+  (forall f r, has_wild p = true -> glob p = f :: r -> first_file_v2 glob p = f) /\
+  (has_wild p = true -> glob p = [] -> first_file_v2 glob p = p).
+Proof.
+  split; [exact (first_file_plain glob p)|].
+  split; [exact (first_file_wild glob p)|exact (first_file_nomatch glob p)].
+Qed.
